@@ -95,3 +95,9 @@
 (define-fun reNoDotDot () RegLan (re.comp (re.++ (re.opt (re.++ re.all (str.to_re "/"))) (str.to_re "..") (re.opt (re.++ (str.to_re "/") re.all)))))
 (define-fun dotdotOnlyLeading ((t String)) Bool (str.in_re t (re.++ (re.* (str.to_re "../")) (re.union reNoDotDot (str.to_re "..")))))
 (define-fun charStr ((c Int)) String (str.from_code c))
+
+; ---- bundle directory names; strings.Cut ----
+(define-fun safeSeg ((d String)) Bool (and (validPath d) (not (= d ".")) (not (str.contains d "/"))))
+(declare-fun cutBefore (String String) String)
+(declare-fun cutAfter (String String) String)
+(declare-fun cutFound (String String) Bool)
